@@ -17,6 +17,7 @@ import (
 	"github.com/uhppoted/uhppote-core/uhppote"
 	"verif/echo"
 	"verif/ops"
+	"verif/pure"
 	"verif/spec"
 )
 
@@ -109,6 +110,15 @@ func (l *listener) OnEvent(s *types.Status) { l.mu.Lock(); l.n++; l.mu.Unlock() 
 func (l *listener) OnError(error) bool      { return true }
 
 func main() {
+	// the network-free entry points, first use in the process, from four goroutines at once
+	{
+		var wg sync.WaitGroup
+		for i := 0; i < 4; i++ {
+			wg.Add(1)
+			go func() { defer wg.Done(); _ = pure.Workload() }()
+		}
+		wg.Wait()
+	}
 	reps := 6
 	if len(os.Args) > 1 {
 		reps, _ = strconv.Atoi(os.Args[1])
